@@ -482,6 +482,19 @@ func (m *Mast) Insert(ctx context.Context, key, value interface{}) error {
 			return m.savePathForRoot(ctx, options.path)
 		}
 	}
+	// Growing the tree comes after the entry has been linked in and computes key
+	// layers, which can fail with a user marshaler. If this insert may grow the
+	// tree, it works on private copies of the path, so that the tree can be put
+	// back exactly as it was when that happens.
+	var saved *Mast
+	if m.size >= m.growAfterSize {
+		before := *m
+		saved = &before
+		for j := range options.path {
+			options.path[j].node = options.path[j].node.xcopy()
+		}
+		node = options.path[len(options.path)-1].node
+	}
 	// Split the child around the new key first: this is the step that can fail
 	// (loads, key comparisons), and it only builds new nodes, so an error here
 	// leaves the tree exactly as it was.
@@ -530,6 +543,9 @@ func (m *Mast) Insert(ctx context.Context, key, value interface{}) error {
 	for m.size >= m.growAfterSize {
 		canGrow, err := options.path[0].node.canGrow(m.height, m.keyLayer, m.branchFactor)
 		if err != nil {
+			if saved != nil {
+				*m = *saved
+			}
 			return fmt.Errorf("canGrow: %w", err)
 		}
 		if !canGrow {
@@ -541,6 +557,9 @@ func (m *Mast) Insert(ctx context.Context, key, value interface{}) error {
 		}
 		err = m.grow(ctx)
 		if err != nil {
+			if saved != nil {
+				*m = *saved
+			}
 			return fmt.Errorf("grow: %w", err)
 		}
 	}
